@@ -259,6 +259,23 @@ def gen_cases(rng, tier):
               "route": "main", "listing": False, "colon_key": True}
       cases.append(case)
       continue
+    if i % 17 == 11:
+      # a [Variables] section holding exactly ONE entry, which a definition uses: removing it (the default section of the
+      # parser cannot be dropped like another one) leaves the placeholder unresolvable, overriding it changes the table
+      items0 = emit.model_items(m)
+      cand = [(si, ki) for si, (s_, its) in enumerate(items0) for ki, (k_, v_) in enumerate(its) if s_ in ("Pair", "EAM-Density", "EAM-Embed") and re.search(r"(?<![\w.])\d+\.\d+(?![\w.])", v_)]
+      if cand and not any(s_ == "Variables" for s_, _ in items0):
+        si, ki = rng.choice(cand)
+        s_, its = items0[si]
+        k_, v_ = its[ki]
+        mm = list(re.finditer(r"(?<![\w.])\d+\.\d+(?![\w.])", v_))[-1]
+        its2 = list(its)
+        its2[ki] = (k_, v_[:mm.start()] + "${onlyvar}" + v_[mm.end():])
+        items1 = [["Variables", [["onlyvar", mm.group(0)]]]] + [[a_, [list(x) for x in (its2 if j == si else b_)]] for j, (a_, b_) in enumerate(items0)]
+        opk = ["remove", "override", "remove"][(i // 17) % 3]
+        ops = [{"op": opk, "section": "Variables", "key": "onlyvar", "value": "2.75"}]
+        route = ["main", "api", "cli"][(i // 17) % 3]
+        case = {"model": m, "ops": ops, "route": route, "listing": False, "options_first": False, "items_override": items1, "single_variable": 1}
     if i % 13 == 6:
       # a key pasted from a web page or a PDF: white space other than blank / tab INSIDE it (no-break space, thin space,
       # form feed).  The file tabulates as ever; an operation addressed to the key exactly as the file spells it must find
@@ -274,7 +291,7 @@ def gen_cases(rng, tier):
         ops = [{"op": opk, "section": s_, "key": newk, "value": "as.constant %s" % spec.fnum(spec.rfloat(rng, 0.5, 9.0))}]
         route = rng.choice(["main", "main", "cli", "api"])
         case = {"model": m, "ops": ops, "route": route, "listing": False, "options_first": False, "respell": [s_, k_, newk]}
-    if route in ("main", "api") and i % 5 == 4 and not case.get("respell"):
+    if route in ("main", "api") and i % 5 == 4 and not case.get("respell") and not case.get("single_variable"):
       # feature interaction: operations that address [Variables] itself, and an item written as ${VAR} that is
       # overridden with exactly the text it currently expands to ("frozen") while VAR is changed or removed
       case["freeze"] = {"tseed": rng.randrange(1 << 30), "force_last_key": (i // 5) % 2 == 0, "clear_variables": (i // 5) % 4 == 1}
@@ -286,6 +303,8 @@ def gen_cases(rng, tier):
 
 def case_items(case):
   """The model's items, with one key re-spelled when the case says so."""
+  if case.get("items_override"):
+    return [(s_, [(k_, v_) for k_, v_ in its]) for s_, its in case["items_override"]]
   items = emit.model_items(case["model"])
   rs = case.get("respell")
   if rs:
@@ -593,6 +612,8 @@ def run_case(case, ctx):
   ctx.cls("nops:%d" % len(ops))
   if case.get("respell"):
     ctx.cls("key_with_exotic_whitespace_inside")
+  if case.get("single_variable"):
+    ctx.cls("only_entry_of_variables_" + ops[0]["op"])
   for s_, its in case_items(case):
     rem = [o for o in ops if o["op"] == "remove" and o["section"] == s_]
     if its and len(rem) >= len(its):
